@@ -1,7 +1,7 @@
 (* Property C08: selection returns only members of its input and obeys its dominance rule.
    Statements only; proofs are in Proofs/SelectionProofs.v. *)
 From Coq Require Import ZArith List Bool Arith Permutation.
-From Bingo Require Import Model.Best Model.Selection Proofs.SelectionProofs.
+From Bingo Require Import Model.Best Model.Selection Model.SelectionProb Proofs.SelectionProofs Proofs.SelectionProbProofs.
 Import ListNotations.
 Local Open Scope nat_scope.
 
@@ -59,6 +59,31 @@ Proof.
 Qed.
 Print Assumptions C08_crowding_replaces_only_by_better_paired_child.
 
+(* 5. probabilistic tournament (the searchsorted index is an oracle): exactly [target] winners, each a
+      member of its own sample of [size] distinct members of the population, for every index the float
+      arithmetic may produce (an index outside the sample is an IndexError, never a stranger) *)
+Theorem C08_probabilistic_tournament_returns_members_in_number :
+  forall size pop target tape ws, ptournament size pop target tape = Ok ws ->
+  length ws = target /\
+  Forall2 (fun w cp => length (fst cp) = size /\ In w (fst cp) /\ w < length pop) ws (firstn target tape).
+Proof. exact ptournament_spec. Qed.
+Print Assumptions C08_probabilistic_tournament_returns_members_in_number.
+
+(* 6. probabilistic crowding (the coin [random() < prob] is an oracle): exactly [target]; slot j holds
+      parent j or its distance-paired child whatever the coins; the child when the parent is NaN, the
+      parent when only the child is NaN *)
+Theorem C08_probabilistic_crowding_keeps_parent_or_paired_child :
+  forall pop target close coins out, pcrowding pop target close coins = Ok out ->
+  let h := Nat.div (length pop) 2 in
+  length out = target /\ target <= h /\
+  forall j, j < target ->
+    let par := getp pop j in let ch := getp pop (h + paired j close) in
+    (nth j out dflt = par \/ nth j out dflt = ch) /\
+    (sfit par = None -> nth j out dflt = ch) /\
+    (sfit par <> None -> sfit ch = None -> nth j out dflt = par).
+Proof. exact pcrowding_spec. Qed.
+Print Assumptions C08_probabilistic_crowding_keeps_parent_or_paired_child.
+
 (* non-vacuity: concrete runs reach Ok with removals, NaN, ties *)
 Example C08_example :
   age_fitness 2 [mkInd 0 1 (Some 5); mkInd 1 0 (Some 3); mkInd 2 2 None; mkInd 3 0 (Some 3)]%Z 2
@@ -66,5 +91,8 @@ Example C08_example :
   = Ok ([mkInd 3 0 (Some 3); mkInd 1 0 (Some 3)], [mkInd 3 0 (Some 3); mkInd 1 0 (Some 3); mkInd 2 2 None; mkInd 0 1 (Some 5)])%Z
   /\ tournament 2 [mkInd 0 0 None; mkInd 1 0 (Some 4); mkInd 2 0 (Some 1)]%Z 2 [[0;1];[1;2]] = Ok [1; 2]
   /\ crowding [mkInd 0 0 (Some 2); mkInd 1 0 None; mkInd 2 0 (Some 1); mkInd 3 0 (Some 7)]%Z 2 [false]
+     = Ok [mkInd 0 0 (Some 2); mkInd 2 0 (Some 1)]%Z
+  /\ ptournament 2 [mkInd 0 0 None; mkInd 1 0 (Some 4); mkInd 2 0 None]%Z 2 [([0;2], 0); ([1;2], 0)] = Ok [0; 1]
+  /\ pcrowding [mkInd 0 0 (Some 2); mkInd 1 0 None; mkInd 2 0 (Some 1); mkInd 3 0 (Some 7)]%Z 2 [false] [Some false]
      = Ok [mkInd 0 0 (Some 2); mkInd 2 0 (Some 1)]%Z.
 Proof. vm_compute. repeat split; reflexivity. Qed.
